@@ -202,7 +202,7 @@ CHECKS["C19"] = dict(
     text="The real function runs on z3 Reals for the angle (through r = angle mod 2 pi in [0, 2 pi], closed because the float remainder can "
          "round up to 2 pi) and the tolerance; floor/log2/int are stubs with stated contracts; every path (exponent sequence x "
          "simplification steps, partitioned by the first two exponents over the cores) ends with z3 deciding 1<=n<=255, 0<=d<=255 and "
-         "|sum n/2^d - r/pi| <= tol. Exhaustive for tol in [1e-4, 0.1] (quick) / [1e-5, 0.1] (thorough); below that only slices: single-step "
+         "|sum n/2^d - r/pi| <= tol. Exhaustive for tol in [1e-4, 0.1] (quick) / [2.5e-5, 0.1] (thorough); below that only slices: single-step "
          "slices at 1e-9 (exhaustive; they also decide that only steps the format cannot hold are dropped) and time-boxed, non-exhaustive "
          "'hunting' slices at 1e-7..1e-6 that need four steps. The builder is checked to emit one rotation per step (symbolic steps). Counterexamples are replayed with real "
          "floats on the unstubbed function.",
